@@ -514,10 +514,12 @@ fn gen_into_attr(d: &mut Dice, tf: &[u8]) -> IntoAttr {
                 let mut es = vec![];
                 for _ in 0..ne {
                     let k = d.pick(3);
-                    if used[k] {
+                    // a kind may be written again in the same attribute with a (further) type list: the lists add up
+                    let again = used[k];
+                    if again && !(typed_ok && d.chance(60)) {
                         continue;
                     }
-                    if typed_ok && d.chance(40) {
+                    if again || (typed_ok && d.chance(40)) {
                         let nt = 1 + d.pick(2);
                         let mut tys = vec![];
                         for _ in 0..nt {
@@ -1013,6 +1015,11 @@ fn build_struct(d: &mut Dice) -> GenCase {
         }
         probes.add_nominated(nominate(&item, "Into"));
         labels.push("derive=Into".into());
+        if item.contains("#[into(") && item.lines().filter(|l| l.contains("#[into(")).any(|l| {
+            l.split("#[into(").skip(1).any(|a| ["owned(", "ref(", "ref_mut("].iter().any(|k| a.match_indices(k).filter(|(i, _)| *i == 0 || !a.as_bytes()[i - 1].is_ascii_alphanumeric() && a.as_bytes()[i - 1] != b'_').count() >= 2))
+        }) {
+            labels.push("into_kind_repeated_in_one_attribute".into());
+        }
         for im in &impls {
             labels.push(format!("into_kind={}", KIND_NAME[im.kind]));
             if im.target.iter().any(|a| a.log_id(im.kind).is_some()) {
